@@ -29,3 +29,13 @@ package mathlib
 //@   modifies everything()
 //@   exits ContextTerminationError
 //@   assert_before_call PushingNext1: isInt(x) && isInt(y) ==> isInt($val) && $val.AsInt() == int64(spec.truncRem(x.AsInt(), y.AsInt()))
+
+// C02: math.abs of a float is the float with its sign bit cleared: also for
+// -0.0 (whose absolute value is +0.0, although -0.0 < 0 is false) and NaN.
+//@ func abs
+//@   prop C02 C04
+//@   arith bv
+//@   requires t != nil && t.Runtime != nil && c != nil && c.GoFunction != nil && c.next != nil && 0 <= c.nArgs && c.nArgs <= len(c.args) && len(c.args) == 1
+//@   modifies everything()
+//@   exits ContextTerminationError
+//@   assert_before_call FloatValue: (arg0 > 0 || math.IsNaN(arg0) || (arg0 == 0 && 1/arg0 > 0)) && (arg0 == f || arg0 == -f || math.IsNaN(f))
